@@ -154,3 +154,26 @@ Definition spec_c07 (c : conc_case) : bool :=
 
 Definition conc_check (c : conc_case) : bool * (bool * bool * bool) :=
   (conc_agree c, (spec_c05 c, spec_c06 c, spec_c07 c)).
+
+(** ---- C05, wall-clock part (a monitor, not a proof): a lookup returns no later than its own
+    deadline - the fetch timeout or the caller's deadline/cancellation, whichever is first - plus
+    scheduling slack; and when the resource arrives earlier, it returns then ---- *)
+Definition lookup_deadline (fetch_ms : N) (caller_ms : option N) : N :=
+  match caller_ms with Some c => N.min fetch_ms c | None => fetch_ms end.
+
+Record dl_case := {
+  dl_fetch : N; dl_caller : option N; dl_deliver : option N;
+  dl_elapsed : N; dl_result : option result }.
+Definition slack_ms : N := 500.
+Definition dl_ok (c : dl_case) : bool :=
+  let d := lookup_deadline (dl_fetch c) (dl_caller c) in
+  match dl_deliver c with
+  | Some t =>
+      if t + 60 <? d then (* supplied well before the deadline: returned then, as a value *)
+        match dl_result c with Some (RVal _) => (t <=? dl_elapsed c + 5) && (dl_elapsed c <=? t + slack_ms) | _ => false end
+      else if d + 60 <? t then
+        match dl_result c with Some RErr => (d <=? dl_elapsed c + 5) && (dl_elapsed c <=? d + slack_ms) | _ => false end
+      else match dl_result c with Some (RVal _) | Some RErr => dl_elapsed c <=? N.max d t + slack_ms | _ => false end
+  | None => match dl_result c with Some RErr => (d <=? dl_elapsed c + 5) && (dl_elapsed c <=? d + slack_ms) | _ => false end
+  end.
+Definition dl_check (c : dl_case) : bool * bool := (dl_ok c, dl_ok c).
